@@ -323,6 +323,7 @@ class Fn:
         self.region_ret = False
         self.names = {}
         self.loop_tmps = {}
+        self.dropped = 0
 
 
 class Lowerer:
@@ -518,6 +519,12 @@ class Lowerer:
             a = key[len('std::atomic<'):-1]
             fields = [(self.parse_type(a), '_v')]
             self.note('builtin record model std::atomic<T> -> {T _v} (sequential, seq_cst)')
+        elif re.match(r'^tbb::(detail::d\d+::)?blocked_range<(.*)>$', key):
+            a = re.match(r'^tbb::(detail::d\d+::)?blocked_range<(.*)>$', key).group(2)
+            fields = [(self.parse_type(a), '_begin'), (self.parse_type(a), '_end')]
+            self.note('builtin record model tbb::blocked_range<T> -> {_begin,_end} (trusted)')
+        elif re.match(r'^tbb::(detail::)?(d\d+::)?(pre_scan_tag|final_scan_tag|split)$', key):
+            fields = []
         elif re.match(r'^std::vector<(.*)>$', key):
             a = split_top(key[len('std::vector<'):-1])[0]
             fields = [(Ty('ptr', to=self.parse_type(a)), '_data'), (Ty('b', name='unsigned long'), '_size'),
@@ -752,6 +759,8 @@ class Lowerer:
         for k in range(f.loops):
             tl = f.loop_tmps.get(k, [])
             guards += '#define LOOPTMPS_%s_%d %s\n' % (f.cname, k, ''.join(', ' + t for t in tl))
+        for k in range(f.dropped):
+            guards += '#ifndef DROPPED_STMT_%s_%d\n#define DROPPED_STMT_%s_%d ((void)0)\n#endif\n' % (f.cname, k, f.cname, k)
         guards += '#ifndef FNSPEC_%s\n#define FNSPEC_%s\n#endif\n' % (f.cname, f.cname)
         guards += '#ifndef CANARYSPEC_%s\n#define CANARYSPEC_%s\n#endif\n' % (f.cname, f.cname)
         fl, ln = node_line(n)
@@ -946,7 +955,9 @@ class Lowerer:
             if why is None:
                 raise
             self.note('DROPPED statement at %s (touches %s; its reads and its frame are not verified)' % (where(n), why))
-            return I + '/* dropped: statement on %s at %s */;\n' % (why, where(n))
+            k = self.cur.dropped
+            self.cur.dropped += 1
+            return I + '/* dropped: statement on %s at %s */\n%sDROPPED_STMT_%s_%d;\n' % (why, where(n), I, self.cur.cname, k)
         if txt is None:
             return ''
         return self.line(n) + I + txt + ';\n'
@@ -975,7 +986,11 @@ class Lowerer:
     DROPPABLE = ('std::map<', 'std::unordered_map<', 'std::shared_ptr<', 'std::function<', 'std::basic_ostream',
                  'tbb::', 'std::mutex', 'std::basic_string')
 
+    DROPPABLE_CALLS = ('parallel_invoke', 'parallel_for', 'parallel_reduce', 'parallel_scan', 'isolate')
+
     def droppable(self, n):
+        if n.get('kind') == 'CallExpr' and self.callee_name(n) in self.DROPPABLE_CALLS:
+            return 'tbb::' + self.callee_name(n)
         t = n.get('type', {})
         s = (t.get('desugaredQualType') or '') + ' ' + (t.get('qualType') or '')
         for d in self.DROPPABLE:
@@ -1886,6 +1901,14 @@ class Lowerer:
                 return v
         if name in ('move', 'forward') and n == 1:
             return self.expr(args[0])
+        if name == 'distance' and n == 2:
+            return '(%s - %s)' % (self.expr(args[1]), self.expr(args[0]))
+        if name == 'is_final_scan' and n == 0:
+            targs = self.idx._targs(self.cur.node)
+            if any('final_scan_tag' in t for t in targs):
+                return '1'
+            if any('pre_scan_tag' in t for t in targs):
+                return '0'
         if name == 'get' and n == 1:
             # std::get<I>(pair/array)
             m = re.search(r'get<(\d+)', json.dumps(e.get('inner', [{}])[0]))
@@ -1904,6 +1927,10 @@ class Lowerer:
         if me.get('isArrow'):
             bt = self.ty(base['type']).deref()
         key = bt.key or ''
+        if re.match(r'^tbb::(detail::d\d+::)?blocked_range<', key):
+            self.need_record(bt)
+            if name in ('begin', 'end'):
+                return '(%s)->_%s' % (obj, name)
         if key.startswith('std::array<'):
             self.need_record(bt)
             if name == 'operator[]':
